@@ -26,7 +26,7 @@ def corpus():
 
 
 def generate(rng, tier):
-    n = 600 if tier == "quick" else 10000
+    n = 600 if tier == "quick" else 30000
     for _ in range(n):
         nd = rng.choice([1, 2, 2, 3, 3, 4])
         shape = rng.sample([2, 3, 4, 5], nd) if nd <= 4 else [2, 3, 4, 5]
